@@ -733,6 +733,21 @@ func packagePrepareWalkFn(root string, ignoreRules *ignorefiles.Ruleset) filepat
 			}
 		}
 
+		// The package is still in its temporary directory here and will be
+		// renamed afterwards, so a symlink must also stay inside the package
+		// when read as text from its own position: an absolute target, or one
+		// that climbs out and comes back in by the temporary directory's name,
+		// resolves fine right now and dangles after the rename.
+		if info.Mode()&os.ModeSymlink != 0 {
+			target, err := os.Readlink(absPath)
+			if err != nil {
+				return fmt.Errorf("failed to read symlink %q: %w", relPath, err)
+			}
+			if filepath.IsAbs(target) || !filepath.IsLocal(filepath.Join(filepath.Dir(relPath), target)) {
+				return fmt.Errorf("module package path %q is symlink traversing out of the package root", relPath)
+			}
+		}
+
 		// If we get here then we have a file or directory that isn't
 		// covered by the ignore rules, but we still need to make sure it's
 		// valid for inclusion in a source bundle.
